@@ -264,7 +264,8 @@ impl BuildSystem {
             analyzer.get_discovered_events(),
             discovered_structs,
             config,
-        )?;
+        )?
+        .with_generated_files(&generated_files);
         if let Err(e) = cache.save(&config.output_path) {
             self.logger
                 .warning(&format!("Failed to save generation cache: {}", e));
